@@ -183,7 +183,9 @@ func (workerPoolSelf *DefaultWorkerPool) generateWorkerWithMaximum(maximum int) 
 	go func() {
 		// Recover & Recycle
 		defer func() {
+			isPanic := false
 			if panic := recover(); panic != nil {
+				isPanic = true
 				if handler := workerPoolSelf.panicHandler; handler != nil {
 					handler(panic)
 				}
@@ -195,6 +197,11 @@ func (workerPoolSelf *DefaultWorkerPool) generateWorkerWithMaximum(maximum int) 
 				workerPoolSelf.workerBusy--
 			}
 			workerPoolSelf.lock.Unlock()
+
+			// A worker killed by its job must be replaced by the spawn loop
+			if isPanic {
+				workerPoolSelf.spawnWorkerCh.Offer(1)
+			}
 		}()
 
 		// Do Jobs
